@@ -73,6 +73,17 @@ def _system_case(ctx, max_m=6, max_ch=8):
         fs = rng.choice([10.0, 100.0, 1000.0, 64.0, 51.2, 93.0, 102.4, 99.0, 12.5])  # incl. rates with 1/(1/fs) != fs in floating point
         cs = rng.random() < 0.5
         S = sysgen.random_system(rng, g, m, nch, fs, cs)
+        if m >= 2 and rng.random() < 0.25:
+            # two distinct modes whose frequencies differ by 0.8 % .. 4 % only (closer than the default matching tolerance
+            # of the extraction step): still "distinct frequencies", identified exactly from noise-free data
+            j = rng.randrange(m - 1)
+            f2 = S.fn[j] * (1.0 + rng.uniform(0.008, 0.04))
+            if f2 < (S.fn[j + 2] - 0.02 * fs if j + 2 < m else 0.45 * fs):
+                fn = S.fn.copy()
+                fn[j + 1] = f2
+                S = sysgen.ModalSystem(fn, S.xi, S.phi, fs)
+                S.close_pair = True
+                ctx.count("system_close_mode_pair")
         r = rng.randint(1, nch)
         ref = sorted(rng.sample(range(nch), r))
         if rng.random() < 0.3:
@@ -127,6 +138,11 @@ def correspondence(ctx):
         U, SIG, _Vt = svds[0][1]
         Q, Rm = qrs[0][1]
         Rinv = [np.asarray(o) for (_a, o) in invs]
+        if len(Rinv) != ordmax + 1:
+            # the code no longer forms inv(R[:n,:n]) explicitly (e.g. np.linalg.solve): the model's factor is then a float
+            # inverse of the recorded triangular factor, computed here -- same contract, same tolerance
+            Rinv = [np.linalg.inv(Rm[:n, :n]) for n in range(ordmax + 1)]
+            ctx.count("fast_inverse_not_recorded")
         m = ctx.model(
             "ssi_fast", U=Rmat(U[:, :ordmax]), sq=[R(v) for v in np.sqrt(SIG[:ordmax])], Q=Rmat(Q),
             Rinv=[Rmat(x) if x.size else [] for x in Rinv], l=l, ordmax=ordmax,
@@ -231,7 +247,7 @@ def oracle(ctx, scale):
                 if not _check_poles(ctx, f"{method}/{routine}", fn, xi, phi, lam, S, inp | {"method": method, "routine": routine}):
                     return
         # through the classes: SingleSetup + SSIcov (cov_mm) / SSIdat, neutral hard criteria, mpe at order 2m
-        if k % 3 == 0:
+        if k % 3 == 0 or getattr(S, "close_pair", False):
             hc = dict(conj=False, xi_max=1.0, mpc_lim=0.0, mpd_lim=math.pi / 2, cov_max=1e9)
             ss = SingleSetup(Y.copy(), fs=S.fs)
             omax = min((br + 1) * len(ref), br * Y.shape[1])  # the Hankel matrix has no more singular values than that
@@ -256,7 +272,10 @@ def oracle(ctx, scale):
                 if not _check_poles(ctx, tag, res.Fn_poles[:, m2], res.Xi_poles[:, m2], res.Phi_poles[:, m2, :], res.Lambds[:, m2], S, cinp):
                     return
                 order = np.argsort(S.fn)
-                ss.mpe(alg.name, sel_freq=[float(S.fn[i]) for i in order], order=m2, rtol=1e-3)
+                if rng.random() < 0.5:
+                    ss.mpe(alg.name, sel_freq=[float(S.fn[i]) for i in order], order=m2, rtol=1e-3)
+                else:  # the default matching tolerance
+                    ss.mpe(alg.name, sel_freq=[float(S.fn[i]) for i in order], order=m2)
                 r2 = alg.result
                 ctx.oracle_cases += 1
                 if r2.Fn is None or len(r2.Fn) != S.m:
